@@ -99,7 +99,7 @@ def oracles(ctx: Ctx):
             out = dec(run_impl(lambda a: e2e.impl_unprotect(a, symbolic=False), [roots, bytes(m)]))
             why = pred(None, out)
             if why:
-                ctx.violation("failing-input", "oracle:tamper.real", {"unit": "tamper.real", "input": enc([roots, bytes(m)])[-1200:], "why": why, "flip": [byte, bit]},
+                ctx.violation("failing-input", "oracle:tamper.real", {"unit": "tamper.real", "input": enc([roots, bytes(m)]), "why": why, "flip": [byte, bit]},
                               key="tamper.real")
                 return
             if not isinstance(out, Err):
@@ -110,7 +110,7 @@ def oracles(ctx: Ctx):
         out = dec(run_impl(lambda a: e2e.impl_unprotect(a, symbolic=False), [roots, m]))
         why = pred(None, out)
         if why:
-            ctx.violation("failing-input", "oracle:tamper.real", {"unit": "tamper.real", "input": enc([roots, m])[-1200:], "why": why}, key="tamper.real")
+            ctx.violation("failing-input", "oracle:tamper.real", {"unit": "tamper.real", "input": enc([roots, m]), "why": why}, key="tamper.real")
             return
     # key-aware forgeries (another plaintext under the same CEK, shortened tag, matching ICV length)
     fb, cek, iv = hostile.valid_blob_with_cek(hid=4)
@@ -122,13 +122,20 @@ def oracles(ctx: Ctx):
             out = dec(run_impl(lambda a: e2e.impl_unprotect(a, symbolic=False), [roots, m]))
             why = pred(None, out)
             if why:
-                ctx.violation("failing-input", "oracle:tamper.real", {"unit": "tamper.real", "input": enc([roots, m])[-1200:], "why": why + " (" + what + ")"},
+                ctx.violation("failing-input", "oracle:tamper.real", {"unit": "tamper.real", "input": enc([roots, m]), "why": why + " (" + what + ")"},
                               key="tamper.real")
                 return
     else:
         ctx.notes.append("tamper.real: the CEK could not be observed at _client.cek_generate; key-aware forgeries skipped")
     ctx.oracle_runs += n
     ctx.extra["tamper_real"] = {"flips": n, "still_same_plaintext": same, "key_aware_forgeries": forged}
+
+
+def _impl_real(a):
+    return e2e.impl_unprotect(a, symbolic=False)
+
+
+ORACLE_REPLAY = {"tamper.real": (_impl_real, pred)}
 
 
 def search(ctx: Ctx):
